@@ -140,7 +140,15 @@ def run_cmd(argv, timeout=120):
         if os.path.exists(argv[0]) or "/" not in argv[0]:
             break
         time.sleep(5)
-    r = subprocess.run(argv, stdout=subprocess.PIPE, stderr=subprocess.PIPE, timeout=timeout)
+    for attempt in range(4):         # a run that dies while the binary is being replaced (signal / exec error): repeat it
+        try:
+            r = subprocess.run(argv, stdout=subprocess.PIPE, stderr=subprocess.PIPE, timeout=timeout)
+        except OSError:
+            time.sleep(5)
+            continue
+        if r.returncode >= 0:
+            break
+        time.sleep(5)
     return r.returncode, r.stdout.decode("latin-1"), r.stderr.decode("latin-1")
 
 
@@ -168,6 +176,7 @@ MACRO_WITNESS = [
     ("macro:paste-multi-token-argument-not-rescanned", ["#define S(x) #x", "#define C(a,b) x ## a b"], "C(1 S(q), 2)"),
     ("macro:empty-va-args-comma", ["#define F(p, ...) G(p, __VA_ARGS__, __VA_ARGS__)"], "F(1)"),
     ("macro:dot-number-merged", ["#define D(a) a"], "D(x . 42)"),
+    ("macro:recursive-table-reexpansion", ["#define A(x) B(x)", "#define B(y) A(y) y"], "A(B(1))"),
 ]
 
 
